@@ -114,6 +114,12 @@ func RunProperty(cfg Config) int {
 	sort.Strings(names)
 	var droppedMsgs []string
 	for _, d := range l.Dropped {
+		// a dropped file matters to this property only if it defines one of
+		// its harnesses (files that merely share the package do not; files
+		// using a dropped file's helpers are dropped themselves and counted)
+		if src, err := os.ReadFile(l.Overlay[d]); err == nil && !strings.Contains(string(src), "func Verif_"+cfg.Prop+"_") {
+			continue
+		}
 		droppedMsgs = append(droppedMsgs, fmt.Sprintf("harness file %s does not type-check against this tree; its sub-checks are not encodable", d))
 	}
 	if len(names) == 0 {
